@@ -215,8 +215,19 @@ def r4_budget(ctx, F):
                    for z in (x, y) for cb_ in b.calls if cb_.span == c.span and cb_.short == c.short)
         if not used:
             continue
-        src = noref(b0.trace(b0.val(c.args[0]), ('Iterator::filter', 'slice::iter', 'Deref::deref', 'Vec::iter',
-                                                 'IntoIterator::into_iter', 'Iterator::copied', 'Iterator::cloned')))
+        # (`.take(max_crashes)` in front of count(): min(count, max) < max is count < max)
+        takes = [t_ for t_ in b0.calls_to('Iterator::take') if len(t_.args) > 1 and
+                 noref(b0.val(t_.args[1])).fields()[-1:] == ('.max_crashes',)]
+        v0 = b0.val(c.args[0])
+        for _ in range(4):
+            v0 = noref(b0.trace(v0, ('Iterator::filter', 'slice::iter', 'Deref::deref', 'Vec::iter',
+                                     'IntoIterator::into_iter', 'Iterator::copied', 'Iterator::cloned')))
+            tc = b0.call_at(v0.key) if v0.kind == 'call' and not v0.fields() else None
+            if tc is not None and tc in takes:
+                v0 = b0.val(tc.args[0])
+                continue
+            break
+        src = v0
         if src.fields()[-1:] == ('.crashed',):
             okc = True
     ctx.check(okc, rule, 'count-is-over-crashed-flags', b0,
